@@ -79,6 +79,42 @@ class Plain:
         return 'Plain()'
 
 
+class Account:
+    def __init__(self, owner, balance):
+        self.owner, self.balance = owner, balance
+
+
+class SavingsAccount(Account):
+    pass
+
+
+class Ledger:
+    def __init__(self, *entries):
+        self.entries = entries
+
+
+class SubLedger(Ledger):
+    pass
+
+
+# a class registered directly and then, later, by name (an application's own printer followed by a plug-in's):
+# which printer a value gets must not depend on whether a SUBCLASS instance was printed before it
+@P.register_pretty(Account)
+def _account_positional(v, ctx):
+    return P.pretty_call(ctx, type(v), v.owner, v.balance)
+
+
+@P.register_pretty(__name__ + '.Account')
+def _account_keywords(v, ctx):
+    return P.pretty_call(ctx, type(v), owner=v.owner, balance=v.balance)
+
+
+# registered by name only, with a subclass that has no registration of its own
+@P.register_pretty(__name__ + '.Ledger')
+def _ledger(v, ctx):
+    return P.pretty_call(ctx, type(v), *v.entries)
+
+
 def _rec():
     r = [1]
     r.append(r)
@@ -138,6 +174,12 @@ FACTORIES = [
     ('unregistered', lambda: [Plain(), Plain]),
     ('function', lambda: [len, os.path.join, dict.get]),
     ('wide-list', lambda: list(range(60))),
+    ('account', lambda: Account('ann', 10)),
+    ('savings-account', lambda: SavingsAccount('di', 2)),
+    ('accounts-nested', lambda: {'accounts': [Account('cy', 1), SavingsAccount('di', 2)]}),
+    ('savings-then-account', lambda: [SavingsAccount('ed', 3), Account('flo', 4)]),
+    ('ledger', lambda: Ledger(1, Account('gus', 5))),
+    ('sub-ledger', lambda: SubLedger(2, [Ledger(3)])),
 ]
 
 _ID = re.compile(r'id=\d+')
